@@ -360,6 +360,9 @@ func (c *cacheTransaction) Delete(ctx context.Context, key string) error {
 }
 
 func (c *cacheTransaction) Commit(ctx context.Context) error {
+	// A finished transaction must refuse further use; do not keep serving
+	// reads from its private cache afterwards.
+	defer c.lru.Purge()
 	if err := c.cache.backend.(Transaction).Commit(ctx); err != nil {
 		return err
 	}
@@ -387,6 +390,7 @@ func (c *cacheTransaction) Commit(ctx context.Context) error {
 }
 
 func (c *cacheTransaction) Rollback(ctx context.Context) error {
+	defer c.lru.Purge()
 	if err := c.cache.backend.(Transaction).Rollback(ctx); err != nil {
 		return err
 	}
